@@ -83,11 +83,41 @@ def wmin(s):
     return wmax(s)
 
 
+EXTRA_ANYS = []     # objects over the keys the failing program reads that no shape lists (set by witnesses)
+
+
+def listed_keys(s, acc):
+    if s["k"] == "obj":
+        for f in s["fs"]:
+            acc.add(f[0])
+            listed_keys(f[1], acc)
+        if "rest" in s:
+            listed_keys(s["rest"], acc)
+    elif s["k"] in ("arr", "arr1", "opt"):
+        listed_keys(s["e"], acc)
+    return acc
+
+
+def objects_over(keys):
+    """small objects over the given keys: what a program that reads these keys of an arbitrary value may depend on"""
+    import itertools
+    vals = [None, "x", 7, True, {}, []]
+    out = []
+    for k in keys:
+        for v in vals:
+            out.append({k: v})
+    for a, b in itertools.combinations(keys, 2):
+        for va in vals[:4]:
+            for vb in vals[:4]:
+                out.append({a: va, b: vb})
+    return out
+
+
 def variants(s):
     """values conforming to s that differ from wmax(s) in one place"""
     k = s["k"]
     if k == "any":
-        for v in ANYS:
+        for v in ANYS + EXTRA_ANYS:
             yield copy.deepcopy(v)
     elif k == "num":
         yield from (-1, 0, 1)
@@ -126,7 +156,15 @@ def variants(s):
                 yield o
 
 
-def witnesses(alt, cap):
+def witnesses(alt, cap, prog_keys=(), all_alts=None):
+    global EXTRA_ANYS
+    listed = set()
+    for a in (all_alts or [alt]):        # keys that no shape of the extension lists: members of arbitrary values only
+        listed_keys(a["req"], listed)
+        listed_keys(a["resp"], listed)
+    EXTRA_ANYS = objects_over([k for k in prog_keys if k not in listed][:8])
+    if EXTRA_ANYS:
+        cap = max(cap, 6000)
     rq, rs = wmax(alt["req"]), wmax(alt["resp"])
     out = [("max", rq, rs), ("min", wmin(alt["req"]), wmin(alt["resp"]))]
     for i, v in enumerate(variants(alt["req"])):
@@ -274,6 +312,43 @@ def static_failures(ctx):
     return res
 
 
+def source_keys(ext):
+    """string literals used as map indices in the extension's stage code (candidates for the members of arbitrary values)"""
+    import re
+    keys = []
+    for f in ("main.go", "helpers.go", "graphql.go"):
+        try:
+            text = open(os.path.join(vlib.REPO, "pkg/extensions", ext, f)).read()
+        except OSError:
+            continue
+        for k in re.findall(r'\["([A-Za-z_#-][A-Za-z0-9_#-]*)"\]', text):
+            if k not in keys:
+                keys.append(k)
+    return keys
+
+
+def impl_witness_search(ctx, shapes, exts, why):
+    """When the programs of an extension are not available (the translator refused, the generated files do not
+    compile), values built from the shapes alone are run through the real stages: a panic is the failing input."""
+    found = 0
+    for e in exts:
+        keys = source_keys(e)
+        for alt in shapes["alts"].get(e, []):
+            ws = witnesses(alt, 300, keys, shapes["alts"].get(e))
+            rc, res = vh_stages(ctx, "run", [{"id": w[0], "ext": e, "request": w[1], "response": w[2]} for w in ws])
+            for w, r in zip(ws, res or []):
+                for stg, o in (("summarize", r.get("sum") or {}), ("represent", r.get("rep") or {})):
+                    if o.get("panic") and found < 3:
+                        found += 1
+                        ctx.violation({"kind": "c11-witness", "extension": e, "stage": stg, "alternative": alt["name"],
+                                       "what": "%s; a value conforming to the shape of this alternative makes the real %s panic" % (why, stg.capitalize()),
+                                       "request": w[1], "response": w[2], "panic": "%s:%s %s" % (o.get("file"), o.get("line"), o.get("msg")),
+                                       "how": "echo '{\"id\":\"w\",\"ext\":\"%s\",\"request\":<request>,\"response\":<response>}' | work/bin/vh-stages run" % e})
+            if found >= 3:
+                return found
+    return found
+
+
 # ---------------------------------------------------------------------------------- the check
 def c11(ctx):
     quick = ctx.tier == "quick"
@@ -289,6 +364,7 @@ def c11(ctx):
     untranslated = [p["untranslated"] for p in src["programs"] if p["untranslated"]]
     if untranslated:
         ctx.broken.append("C11_static: the translator refused: " + "; ".join(untranslated)[:600])
+        impl_witness_search(ctx, shapes, sorted({p["ext"] for p in src["programs"] if p["untranslated"]}), "the translator refused a stage function")
     if shapes["problems"]:
         ctx.broken.append("C11_static: shape derivation: " + "; ".join(shapes["problems"])[:600])
     all_sites = {(p["ext"], p["stage"]): set(p["sites"]) for p in src["programs"]}
@@ -309,7 +385,8 @@ def c11(ctx):
         for i in idx:
             nfail += 1
             alt = shapes["alts"][e][i]
-            ws = witnesses(alt, 400)
+            keys = [k for p in src["programs"] if p["ext"] == e and p["stage"] == stg for k in p["keys"]]
+            ws = witnesses(alt, 400, keys, shapes["alts"][e])
             rc, res = vh_stages(ctx, "run", [{"id": w[0], "ext": e, "request": w[1], "response": w[2]} for w in ws])
             hit = None
             for w, r in zip(ws, res):
